@@ -17,7 +17,9 @@ import (
 func init() { extraSections = append(extraSections, factsRing) }
 
 // event codes: mark N -> N;  1000+2*op+mx with op 0 lock 1 unlock 2 wait 3 bcast, mx 0 pcond 1 ccond;
-// 1100 return; 1200 defer Close; 1300+k call of ring method k
+// 1100 return; 1200 defer Close; 1300+k call of ring method k;
+// 1400 pseq.get 1401 cseq.get 1402 pseq.set 1403 cseq.set 1404 isDone (cursor / done accesses, so that a load
+// moved across a Lock changes the sequence)
 var ringMethods = []string{"Close", "Len", "ReadFrom", "WriteTo", "Read", "Write", "ReadPeek", "ReadWait", "ReadCommit",
 	"WriteWait", "WriteCommit", "waitForWriteSpace"}
 
@@ -89,6 +91,12 @@ func ringEvents(fd *ast.FuncDecl) []int {
 					die("buffer.go: unrecognised condition-variable operation %s in %s", s, fd.Name.Name)
 				}
 				ev = append(ev, 1000+2*op+mx)
+				return false
+			case s == "bf.pseq.get" || s == "bf.cseq.get" || s == "bf.pseq.set" || s == "bf.cseq.set" || s == "bf.isDone":
+				for _, a := range n.Args {
+					ast.Inspect(a, visit)
+				}
+				ev = append(ev, map[string]int{"bf.pseq.get": 1400, "bf.cseq.get": 1401, "bf.pseq.set": 1402, "bf.cseq.set": 1403, "bf.isDone": 1404}[s])
 				return false
 			case strings.HasPrefix(s, "bf."):
 				name := s[3:]
